@@ -28,6 +28,20 @@ theorem periodStart_le (p t : Int) (hp : 0 < p) : periodStart p t ≤ t := by
 theorem fromFloat64_tag {dt : DataType} {d : D} {v : Val D} (h : fromFloat64 O dt d = some v) : hasTag dt v := by
   cases dt <;> simp [fromFloat64] at h <;> subst h <;> rfl
 
+/-- `timeWeightedAverage` yields one of its (conforming) operands or a non-nil value of the declared type -/
+theorem timeWeightedAverage_tag {dt : DataType} {req : Bool} {target t1 t2 : Int} {v1 v2 v : Val D}
+    (h : timeWeightedAverage O dt target t1 v1 t2 v2 = some v) (h1 : tagOk dt req v1) : tagOk dt req v := by
+  simp only [timeWeightedAverage] at h
+  split at h
+  · split at h
+    · simp only [Option.some.injEq] at h; subst h; exact h1
+    · simp at h
+  · split at h
+    · simp at h
+    · split at h
+      · exact tagOk_weaken (fromFloat64_tag O h)
+      · simp at h
+
 theorem alignValue_tag {dt : DataType} {req : Bool} {start : Int} {prev : Option (DRec D)} {first out : DRec D}
     (h : alignValue O dt start prev first = some out) (hf : tagOk dt req first.val)
     (hp : ∀ r, prev = some r → tagOk dt req r.val) : out.ts = start ∧ tagOk dt req out.val := by
@@ -39,35 +53,28 @@ theorem alignValue_tag {dt : DataType} {req : Bool} {start : Int} {prev : Option
     · simp only [Option.some.injEq] at h; subst h; exact ⟨rfl, hf⟩
     · simp only [Option.map_eq_some_iff] at h
       obtain ⟨v, hv, rfl⟩ := h
-      refine ⟨rfl, ?_⟩
-      simp only [timeWeightedAverage] at hv
-      split at hv
-      · split at hv
-        · simp only [Option.some.injEq] at hv; subst hv; exact hp pr rfl
-        · simp at hv
-      · split at hv
-        · simp at hv
-        · split at hv
-          · exact tagOk_weaken (fromFloat64_tag O hv)
-          · simp at hv
+      exact ⟨rfl, timeWeightedAverage_tag O hv (hp pr rfl)⟩
 
-/-- what `restOfCluster` returns: the next cluster's first record is later in the stream and in another period -/
-theorem restOfCluster_spec (p start : Int) : ∀ (last : DRec D) (rest : List (Option (DRec D)))
-    {last' : DRec D} {nxt : Option (DRec D)} {rest' : List (Option (DRec D))},
-    restOfCluster p start last rest = some (last', nxt, rest') →
-    (last' = last ∨ last' ∈ okRows rest) ∧
+section cluster
+variable {α : Type} (ts : α → Int)
+
+/-- what the skipping loop returns: the next cluster's first record is later in the stream and in another period -/
+theorem skipCluster_spec (p start : Int) : ∀ (cur : α) (rest : List (Option α))
+    {last : α} {nxt : Option α} {rest' : List (Option α)},
+    skipCluster ts p start cur rest = some (last, nxt, rest') →
+    (last = cur ∨ last ∈ okRows rest) ∧
       match nxt with
-      | some n => periodStart p n.ts ≠ start ∧ (n :: okRows rest') <+ okRows rest
+      | some n => periodStart p (ts n) ≠ start ∧ (n :: okRows rest') <+ okRows rest
       | none => True
-  | last, [], last', nxt, rest', h => by
-    simp only [restOfCluster, Option.some.injEq, Prod.mk.injEq] at h
+  | cur, [], last, nxt, rest', h => by
+    simp only [skipCluster, Option.some.injEq, Prod.mk.injEq] at h
     obtain ⟨rfl, rfl, rfl⟩ := h
     exact ⟨Or.inl rfl, trivial⟩
-  | last, none :: _, _, _, _, h => by simp [restOfCluster] at h
-  | last, some r :: t, last', nxt, rest', h => by
-    simp only [restOfCluster] at h
+  | cur, none :: _, _, _, _, h => by simp [skipCluster] at h
+  | cur, some r :: t, last, nxt, rest', h => by
+    simp only [skipCluster] at h
     split at h
-    · obtain ⟨h1, h2⟩ := restOfCluster_spec p start r t h
+    · obtain ⟨h1, h2⟩ := skipCluster_spec p start r t h
       refine ⟨Or.inr ?_, ?_⟩
       · rcases h1 with rfl | h1
         · simp [okRows]
@@ -80,16 +87,57 @@ theorem restOfCluster_spec (p start : Int) : ∀ (last : DRec D) (rest : List (O
           simp only [okRows, filterMap_cons, id_eq]
           exact h2.2.cons _
     · rename_i hne
-      simp only [Option.some.injEq, Prod.mk.injEq] at h
-      obtain ⟨rfl, rfl, rfl⟩ := h
-      exact ⟨Or.inl rfl, hne, by simp [okRows]⟩
+      split at h
+      · simp at h
+      · simp only [Option.some.injEq, Prod.mk.injEq] at h
+        obtain ⟨rfl, rfl, rfl⟩ := h
+        exact ⟨Or.inl rfl, hne, by simp [okRows]⟩
 
-theorem alignLoop_sound {dt : DataType} {req : Bool} {p : Int} (hp : 0 < p) :
-    ∀ (fuel : Nat) (prev : Option (DRec D)) (first : DRec D) (rest : List (Option (DRec D))) (b : Int),
-    (∀ r ∈ first :: okRows rest, tagOk dt req r.val) → (∀ r, prev = some r → tagOk dt req r.val) →
-    ((first :: okRows rest).map (·.ts)).Pairwise (· < ·) → b < periodStart p first.ts →
-    (∀ r ∈ okRows (alignLoop O dt p fuel prev first rest), tagOk dt req r.val) ∧
-      (b :: (okRows (alignLoop O dt p fuel prev first rest)).map (·.ts)).Pairwise (· < ·)
+theorem restOfCluster_spec (p start : Int) (first : α) (rest : List (Option α))
+    {last : α} {nxt : Option α} {rest' : List (Option α)}
+    (h : restOfCluster ts p start first rest = some (last, nxt, rest')) :
+    (last = first ∨ last ∈ okRows rest) ∧
+      match nxt with
+      | some n => periodStart p (ts n) ≠ start ∧ (n :: okRows rest') <+ okRows rest
+      | none => True := by
+  cases rest with
+  | nil =>
+    simp only [restOfCluster, Option.some.injEq, Prod.mk.injEq] at h
+    obtain ⟨rfl, rfl, rfl⟩ := h
+    exact ⟨Or.inl rfl, trivial⟩
+  | cons e t =>
+    cases e with
+    | none => simp [restOfCluster] at h
+    | some r =>
+      simp only [restOfCluster] at h
+      split at h
+      · obtain ⟨h1, h2⟩ := skipCluster_spec ts p start r t h
+        refine ⟨Or.inr ?_, ?_⟩
+        · rcases h1 with rfl | h1
+          · simp [okRows]
+          · simp only [okRows, filterMap_cons, id_eq, mem_cons]; exact Or.inr h1
+        · cases nxt with
+          | none => trivial
+          | some n =>
+            simp only at h2 ⊢
+            refine ⟨h2.1, ?_⟩
+            simp only [okRows, filterMap_cons, id_eq]
+            exact h2.2.cons _
+      · rename_i hne
+        simp only [Option.some.injEq, Prod.mk.injEq] at h
+        obtain ⟨rfl, rfl, rfl⟩ := h
+        exact ⟨Or.inl rfl, hne, by simp [okRows]⟩
+
+/-- the cluster machine with a factory `mk` that stamps the period start and preserves the invariant `P`:
+every delivered record satisfies `P` and the timestamps are strictly increasing -/
+theorem alignLoop_sound {P : α → Prop} {mk : Int → Option α → α → Option α} {p : Int} (hp : 0 < p)
+    (hmk : ∀ start prev first out, mk start prev first = some out → P first → (∀ r, prev = some r → P r) →
+      ts out = start ∧ P out) :
+    ∀ (fuel : Nat) (prev : Option α) (first : α) (rest : List (Option α)) (b : Int),
+    (∀ r ∈ first :: okRows rest, P r) → (∀ r, prev = some r → P r) →
+    ((first :: okRows rest).map ts).Pairwise (· < ·) → b < periodStart p (ts first) →
+    (∀ r ∈ okRows (alignLoop ts mk p fuel prev first rest), P r) ∧
+      (b :: (okRows (alignLoop ts mk p fuel prev first rest)).map ts).Pairwise (· < ·)
   | 0, _, _, _, _, _, _, _, _ => by simp [alignLoop, okRows]
   | fuel + 1, prev, first, rest, b, htag, hprev, hsrt, hb => by
     simp only [alignLoop]
@@ -98,16 +146,16 @@ theorem alignLoop_sound {dt : DataType} {req : Bool} {p : Int} (hp : 0 < p) :
     | true => simp [okRows]
     | false =>
       simp only [Bool.false_eq_true, ↓reduceIte]
-      cases hav : alignValue O dt (periodStart p first.ts) prev first with
+      cases hav : mk (periodStart p (ts first)) prev first with
       | none => simp [okRows]
       | some out =>
-        obtain ⟨hts, hout⟩ := alignValue_tag O hav (htag first (by simp)) hprev
+        obtain ⟨hts, hout⟩ := hmk _ _ _ _ hav (htag first (by simp)) hprev
         simp only
-        cases hrc : restOfCluster p (periodStart p first.ts) first rest with
+        cases hrc : restOfCluster ts p (periodStart p (ts first)) first rest with
         | none => simp [okRows]
         | some tr =>
           obtain ⟨last, nxt, rest'⟩ := tr
-          obtain ⟨hlast, hnxt⟩ := restOfCluster_spec p _ first rest hrc
+          obtain ⟨hlast, hnxt⟩ := restOfCluster_spec ts p _ first rest hrc
           cases nxt with
           | none =>
             simp only [okRows, filterMap_cons, id_eq, filterMap_nil, mem_cons, not_mem_nil, or_false, forall_eq,
@@ -118,13 +166,13 @@ theorem alignLoop_sound {dt : DataType} {req : Bool} {p : Int} (hp : 0 < p) :
             obtain ⟨hne', hsub⟩ := hnxt
             have hsub' : (n :: okRows rest') <+ first :: okRows rest := hsub.cons _
             have hnmem : n ∈ okRows rest := hsub.subset (by simp)
-            have hlt : first.ts < n.ts := by
+            have hlt : ts first < ts n := by
               simp only [map_cons, pairwise_cons] at hsrt
-              exact hsrt.1 n.ts (mem_map.mpr ⟨n, hnmem, rfl⟩)
-            have hstart : periodStart p first.ts < periodStart p n.ts := by
+              exact hsrt.1 (ts n) (mem_map.mpr ⟨n, hnmem, rfl⟩)
+            have hstart : periodStart p (ts first) < periodStart p (ts n) := by
               have := periodStart_mono hp (Int.le_of_lt hlt)
               omega
-            have ih := alignLoop_sound hp fuel (some last) n rest' (periodStart p first.ts)
+            have ih := alignLoop_sound hp hmk fuel (some last) n rest' (periodStart p (ts first))
               (fun r hr => htag r (hsub'.subset hr))
               (by
                 intro r hr
@@ -138,35 +186,33 @@ theorem alignLoop_sound {dt : DataType} {req : Bool} {p : Int} (hp : 0 < p) :
             rw [hts]
             exact pairwise_cons_lt hb ih.2
 
+theorem alignStreamG_sound {P : α → Prop} {mk : Int → Option α → α → Option α} {p : Int} (hp : 0 < p)
+    (hmk : ∀ start prev first out, mk start prev first = some out → P first → (∀ r, prev = some r → P r) →
+      ts out = start ∧ P out)
+    {s : List (Option α)} (hrows : ∀ r ∈ okRows s, P r) (hincr : ((okRows s).map ts).Pairwise (· < ·)) :
+    (∀ r ∈ okRows (alignStreamG ts mk p s), P r) ∧ ((okRows (alignStreamG ts mk p s)).map ts).Pairwise (· < ·) := by
+  cases s with
+  | nil => simp [alignStreamG, okRows]
+  | cons e t =>
+    cases e with
+    | none => simp [alignStreamG, okRows]
+    | some first =>
+      simp only [alignStreamG]
+      have hrows' : ∀ r ∈ first :: okRows t, P r := by
+        intro r hr; exact hrows r (by simpa [okRows] using hr)
+      have hsrt : ((first :: okRows t).map ts).Pairwise (· < ·) := by simpa [okRows] using hincr
+      have := alignLoop_sound ts hp hmk ((some first :: t).length + 1) none first t (periodStart p (ts first) - 1) hrows'
+        (by simp) hsrt (by omega)
+      exact ⟨this.1, pairwise_tail this.2⟩
+
+end cluster
+
 /-- `AlignerFilter.Filter`: the aligned stream of a sound numeric result is sound -/
 theorem alignStream_sound {m : FieldMeta} {s : DStream D} {p : Int} (hp : 0 < p) (hs : DSound (m, s)) :
     DSound (m, alignStream O m.dt p s) := by
-  refine ⟨hs.valid, ?_, ?_⟩
-  · cases s with
-    | nil => simp [alignStream, okRows]
-    | cons e t =>
-      cases e with
-      | none => simp [alignStream, okRows]
-      | some first =>
-        simp only [alignStream]
-        have hrows : ∀ r ∈ first :: okRows t, tagOk m.dt m.required r.val := by
-          intro r hr; exact hs.rows r (by simpa [okRows] using hr)
-        have hsrt : ((first :: okRows t).map (·.ts)).Pairwise (· < ·) := by
-          have := hs.incr; simpa [okRows] using this
-        exact (alignLoop_sound O hp _ none first t (periodStart p first.ts - 1) hrows (by simp) hsrt (by omega)).1
-  · cases s with
-    | nil => simp [alignStream, okRows]
-    | cons e t =>
-      cases e with
-      | none => simp [alignStream, okRows]
-      | some first =>
-        simp only [alignStream]
-        have hrows : ∀ r ∈ first :: okRows t, tagOk m.dt m.required r.val := by
-          intro r hr; exact hs.rows r (by simpa [okRows] using hr)
-        have hsrt : ((first :: okRows t).map (·.ts)).Pairwise (· < ·) := by
-          have := hs.incr; simpa [okRows] using this
-        exact pairwise_tail
-          (alignLoop_sound O hp _ none first t (periodStart p first.ts - 1) hrows (by simp) hsrt (by omega)).2
+  have := alignStreamG_sound (fun r : DRec D => r.ts) (P := fun r => tagOk m.dt m.required r.val) hp
+    (fun start prev first out h hf hpv => alignValue_tag O h hf hpv) hs.rows hs.incr
+  exact ⟨hs.valid, this.1, this.2⟩
 
 /-! ## the reduction datasource -/
 
